@@ -26,6 +26,7 @@ EXPLANATION = (
 )
 TECHNIQUE += '; component-selection scan in volume()'
 EXPLANATION += ' R3 also requires volume() to use whole cell vectors only (no Cartesian component singled out: rotation invariance).'
+EXPLANATION += " R5 also rejects overwrite_a/overwrite_b=True on the caller's matrices and accepts the transposed (symmetric) overlap as metric."
 TRUSTED = ["CPython ast parser", "scipy.linalg.eigh(a, b) solves a v = w b v and returns (w, v)", "np.linalg.norm and abs are non-negative"]
 
 DOC_TRUE = {"y", "yes", "t", "true", "on", "1"}
@@ -241,10 +242,25 @@ def run(ctx):
         kws = {k.arg: k.value for k in cs.node.keywords}
         metric = args[1] if len(args) > 1 else kws.get("b")
         ov = dn.posparams[1]
-        if isinstance(metric, ast.Name) and metric.id == ov:
+        mt = metric
+        while isinstance(mt, ast.Attribute) and mt.attr == "T":
+            mt = mt.value  # the overlap is symmetric: its transpose is the same metric
+        if isinstance(mt, ast.Call) and src_of(mt.func) in ("np.array", "np.asarray", "np.copy") and mt.args:
+            mt = mt.args[0]
+        if isinstance(mt, ast.Name) and mt.id == ov:
             ctx.ok("R5", "eigh(sds, overlap): overlap is the metric", f"{dn.module.relpath}:{cs.node.lineno}")
         else:
             ctx.violate("R5", "the overlap matrix is not passed as second (metric) argument of eigh", dn, cs.node)
+        # eigh must not be allowed to destroy the caller's matrices
+        for flag, pos in (("overwrite_a", 0), ("overwrite_b", 1)):
+            v = kws.get(flag)
+            if v is not None and not (isinstance(v, ast.Constant) and v.value is False):
+                opnd = args[pos] if len(args) > pos else kws.get("ab"[pos])
+                root = opnd
+                while isinstance(root, ast.Attribute) and root.attr == "T":
+                    root = root.value
+                if isinstance(root, ast.Name) and root.id in dn.params:
+                    ctx.violate("R5", f"eigh is called with {flag}=True on the caller's `{root.id}`: LAPACK may overwrite it in place (the overlap the caller keeps is then no longer the metric of the returned orbitals, and a second call gives other occupations)", dn, cs.node, construct=f"eigh {flag} on parameter {root.id}")
         bad = [k for k in kws if k in ("type", "eigvals_only", "subset_by_index", "subset_by_value", "lower") and not (k == "type" and isinstance(kws[k], ast.Constant) and kws[k].value == 1)]
         if bad:
             ctx.violate("R5", f"eigh called with options {bad} that change the problem solved", dn, cs.node)
